@@ -369,6 +369,7 @@ def assembleCalls (coll : List Source) (ms : Str) : List Call :=
 
 /-- FNV-1a, 64 bit, over the UTF-8 bytes. -/
 def fnv1a (s : Str) : UInt64 :=
-  (String.ofList s).toUTF8.foldl (fun h b => (h ^^^ b.toUInt64) * 1099511628211) 14695981039346656037
+  s.foldl (fun h c => (String.utf8EncodeChar c).foldl (fun h b => (h ^^^ b.toUInt64) * 1099511628211) h)
+    14695981039346656037
 
 end Rotonda.UnitMetrics
